@@ -72,6 +72,15 @@ prop("C15", True, "model_checking",
      "For every (input, base) of the parse families the four configurations are run on the real code; TLC evaluates reporting == default, fail-on-VE subset/same URL/accepts exactly the silent inputs, documented error types, failure flags.",
      TB + "; the table of documented error identifiers (harness/cmd/vh/errnames.go, generated from errors/codes.go).", "DESIGN.md section 4/C15")
 
+prop("C14", True, "model_checking",
+     "interleaving model spec/Conc.tla (all schedules of the shared-memory access programs of read-only calls; refuted with the LazyInitOnClone deviation as non-vacuity check); write-set traces validated by TLC against ConcProg!WritesOf; goroutine drivers under the Go race detector",
+     "Design: NoRace/TablesFrozen/ResultsAsAlone on all interleavings of 3 goroutines x 4 call kinds. Binding: every read-only call of the drivers is bracketed by snapshots of every shared object (base record incl. the lazily created list, parser options, package tables) and must have the empty write set - deterministic; plus 8-16 goroutines x 24-60 rounds under -race with results compared with the sequential run.",
+     TB + "; the Go race detector; snapshot/fingerprint hooks. Blind to races on paths no driver executes.", "DESIGN.md section 4/C14")
+prop("C20", True, "exploration",
+     "work model in the spec's parser state (TLC: WorkBound, per-pump increment) + pump families extracted by TLC from the cycles of the parser's control-state graph (spec/MC_Pump.tla), measured on the real code as allocation growth between n and 4n",
+     "The specification decides only the design half (the algorithm is linear); the implementation half is a measurement over model-derived families (about 700 (control state, unit, suffix) families + named and API-level ones), ratio threshold 9 (linear 4-6, quadratic 16). Claimed as exploration.",
+     "runtime.MemStats (TotalAlloc, Mallocs) with the GC off on one goroutine; thresholds from measurement (DESIGN.md section 3); CPU work that allocates nothing is not measured.", "DESIGN.md section 4/C20")
+
 NOT_YET = "check under construction in this session (see DESIGN.md section 4 for the planned decision procedure)"
 
 def main():
